@@ -490,7 +490,7 @@ def C03(run):
 def C07(run):
     q = run.quick()
     mc = tlc_mc(run, "MC_RoundTrip", workers=NCPU)
-    mc, res, out, n, cases, shapes, nontriv = _ser_check(run, "C07", ["--sern", "--wildhalf"], [("api", 700 if q else 60000), ("dec", 500 if q else 60000), ("edge", 0)], "size / serialize / serialize_alloc agreement", mc)
+    mc, res, out, n, cases, shapes, nontriv = _ser_check(run, "C07", ["--sern", "--wildhalf"], [("api", 700 if q else 60000), ("dec", 500 if q else 60000), ("edge", 0), ("bigshare", 0)], "size / serialize / serialize_alloc agreement", mc)
     lib = build_lib(run, "dbg")
     exe = build_harness(run, lib, "h_enc", ["vh.c", "h_enc.c"])
     eout = run.path("encn.ndjson")
